@@ -380,6 +380,8 @@ def linear_forward(chk, helper_nodes):
         chk.unknown("C07.R1", f"{mi.rel}:{fwd.lineno}", "default qbytes_mm not found")
         return
     ranks = (1, 2, 3) if chk.tier == "quick" else (1, 2, 3, 4)
+    if chk.pid != "C07":
+        ranks = (0,) + ranks  # C07 quantifies over batch ranks 1..3; C05 / C08 also cover a 1-D input (no batch dimension)
 
     def qbytes_mm_op(a, w, s):
         res = Interp(default, dict(zip(positional_params(default), (a, w, s))), helper_nodes).run()
